@@ -53,20 +53,26 @@ def tree(draw):
     target = draw(st.one_of(st.sampled_from(eids) if eids else st.just(0x50000001), st.just(0x50000001),
                             st.just(eids[0]) if eids else st.just(0x50000001),
                             st.just(eids[0]) if eids else st.just(0x50000001)))
+    # one tree in six: the id asked for exists ONLY below the directory (an archived log)
+    nested_only = draw(st.integers(0, 5)) == 0
+    if nested_only:
+        target = draw(st.sampled_from([0x6000ABCD, 0x00000007, 0x5FFFFFFF]))
+        if target in eids:
+            nested_only = False
     tid = '%08X' % target
     # more names that contain the target id, and junk
-    for k in range(draw(st.integers(0, 2))):
+    for k in range(0 if nested_only else draw(st.integers(0, 2))):
         files['copy%d_%s.bak' % (k, tid)] = draw(st.one_of(random_bytes, st.just(b'')))
     for k in range(draw(st.integers(0, 2))):
         files['junk%d' % k] = draw(random_bytes)
     # nested directories; PEL-named files inside must never be touched
-    if draw(st.booleans()):
+    if draw(st.booleans()) or nested_only:
         files['archive/'] = None
         for k in range(draw(st.integers(0, 2))):
             e = 0x70000000 + k
             files['archive/%016d_%08X' % (1618273645091827 + k, e)] = M.encode(
                 draw(D.dir_pel(e, selectable=True, plid=0x50000001)))
-        if draw(st.booleans()):
+        if draw(st.booleans()) or nested_only:
             files['archive/%016d_%s' % (1618273645099999, tid)] = M.encode(
                 draw(D.dir_pel(target, selectable=True, plid=0x50000001)))
         if draw(st.booleans()):
@@ -75,7 +81,7 @@ def tree(draw):
     if draw(st.integers(0, 3)) == 0:
         files['emptydir/'] = None
     # names that shell-style matching treats specially
-    for k in range(draw(st.integers(0, 2))):
+    for k in range(0 if nested_only else draw(st.integers(0, 2))):
         files[draw(st.sampled_from(['.hidden_%s', '.%s.pel', '[x]_%s', 'st*r_%s', 'q?_%s'])) % tid] = \
             draw(st.one_of(random_bytes, st.just(b'')))
     return {'files': files, 'target': target, 'n_pels': n,
